@@ -189,15 +189,29 @@ def c02_check_clique(pairing, seq=None):
     return errs
 
 
+def greedy_stable_assignments(stems, adj):
+    """all proper assignments in which every stem sits on the lowest level not taken by a crossing stem - enumerated with the
+    bound level(a) <= degree(a) (a stem on level l has l crossing stems on the l levels below it), which keeps groups of 8-10
+    stems tractable; the definition itself (greedy_stable) is applied to every complete candidate"""
+    n = len(stems)
+    cur = [0] * n
+
+    def rec(a):
+        if a == n:
+            if greedy_stable(cur, adj):
+                yield tuple(cur)
+            return
+        for lv in range(len(adj[a]) + 1):
+            if all(cur[b] != lv for b in adj[a] if b < a):
+                cur[a] = lv
+                yield from rec(a + 1)
+    yield from rec(0)
+
+
 def c16_expected(pairing):
     """set of structures of all greedy-stable proper assignments"""
     stems, adj = stem_graph(pairing)
-    n = len(stems)
-    out = set()
-    for asg in proper_assignments(stems, adj, max(n, 1)):
-        if greedy_stable(asg, adj):
-            out.add(paint(pairing, asg))
-    return out
+    return {paint(pairing, asg) for asg in greedy_stable_assignments(stems, adj)}
 
 
 def c16_check(pairing, seq=None):
